@@ -37,26 +37,78 @@ def instances(tier: str) -> list[dict]:
                 for o in nodes:
                     out.append({"tree": tree, "naming": naming, "sk": "named", "S": list(S), "ok": "named", "O": [o]})
 
+    def add_cover(tree, naming, kinds=("named", "sub"), items=None, drop=4, n_windows=4):
+        """Quick-tier stand-in for a tree whose full relation is too large: n_windows windows per instance, each leaving
+        out a different (disjoint) set of `drop` ordered pairs, which are absent.  Every scenario that needs up to
+        n_windows - 1 particular imports (all others absent or arbitrary inside the window) lies inside one of them."""
+        import random
+
+        nodes = concrete(tree, naming)
+        pairs = [(x, y) for x in nodes for y in nodes if x != y and not (y.startswith(x + ".") and "." not in y[len(x) + 1 :])]
+        rnd = random.Random(runner.seed() * 13 + len(tree))
+        base = []
+        if items is None:
+            for s_ in nodes:
+                for o_ in nodes:
+                    for sk in kinds:
+                        for ok in kinds:
+                            base.append({"tree": tree, "naming": naming, "sk": sk, "S": [s_], "ok": ok, "O": [o_]})
+        else:
+            base = items
+        for b in base:
+            order = list(pairs)
+            rnd.shuffle(order)
+            for w in range(n_windows):
+                dropped = set(order[w * drop : (w + 1) * drop])
+                out.append(dict(b, nodes=nodes, window=[list(p) for p in pairs if p not in dropped], background=[], tree=f"{tree}~w{w}"))
+
     if tier == "quick":
         add("T4", "neutral", batches=True)
         add("T4", "adv", batches=True)
         add("T5b", "neutral", kinds=("named",), skip_root=True)
-        add("T5e", "neutral", kinds=("named",))
+        add_cover("T5e", "neutral", kinds=("named",))
         add("T4r", "neutral")
         # a 'sub modules of P' subject whose parent node itself imports a root that sorts before P's children
+        f_items = []
         for o in ("Q", "L"):
             for sk in ("named", "sub"):
                 nodes = concrete("T5f", "neutral")
-                out.append({"tree": "T5f", "naming": "neutral", "sk": sk, "S": [nodes[1]], "ok": "named", "O": [nodes[4] if o == "Q" else nodes[0]]})
+                f_items.append({"tree": "T5f", "naming": "neutral", "sk": sk, "S": [nodes[1]], "ok": "named", "O": [nodes[4] if o == "Q" else nodes[0]]})
+        add_cover("T5f", "neutral", items=f_items)
     else:
         for t in ("T4", "T4r", "T5a", "T5b", "T5c", "T5d", "T5e", "T5f"):
             add(t, "neutral", batches=True)
         add("T5a", "adv")
         add("T5b", "adv")
+    out.extend(big_instances(tier))
     for i in out:
         i["cap"] = CAPS[tier]
     # heavy items (root module involved: every variable is inspected) first, for better pool balance
     out.sort(key=lambda i: -sum(1 for n in i["S"] + i["O"] if "." not in n))
+    return out
+
+
+def big_instances(tier: str) -> list[dict]:
+    """Seeded larger universes (random forests of 8-12 modules, mixed neutral / prefix-sibling names): a concrete random
+    import relation with a window of 10-11 symbolic pairs, two thirds of them touching the subject / object modules or
+    their relatives; subjects and objects drawn from ALL modules (identical, ancestor, descendant, unrelated), either
+    filter kind, single or two-subject batches."""
+    import random
+
+    from vf.universes import random_forest, random_window
+
+    rnd = random.Random(runner.seed() * 1000003 + 12)
+    out = []
+    n_inst = 60 if tier == "quick" else 1200
+    while len(out) < n_inst:
+        nodes = random_forest(rnd, rnd.choice((8, 9, 10, 12)), max_depth=rnd.choice((3, 4)), roots=rnd.choice((1, 2, 3)))
+        batch = rnd.random() < 0.3
+        S = rnd.sample(nodes, 2) if batch else [rnd.choice(nodes)]
+        near = [n for n in nodes if any(related(n, s) for s in S)]
+        O = [rnd.choice(near if rnd.random() < 0.4 else nodes)]
+        sk, ok = ("named", "named") if batch else (rnd.choice(("named", "sub")), rnd.choice(("named", "sub")))
+        win, bg = random_window(rnd, nodes, rnd.choice((10, 11)), density=rnd.choice((0.03, 0.1, 0.2)), focus=S + O)
+        out.append({"tree": f"R{len(nodes)}#{len(out)}", "naming": "mixed", "nodes": nodes, "window": [list(p) for p in win], "background": [list(p) for p in bg], "sk": sk, "S": sorted(S), "ok": ok, "O": O})
     return out
 
 
@@ -73,6 +125,10 @@ def laws(inst) -> list[tuple[str, str, list[RuleSpec]]]:
     single = len(inst["S"]) == 1 and len(inst["O"]) == 1
     for verb in ("should", "should_not"):
         out.append((f"duality/{verb}/import", "eq", [_spec(inst, verb, "import", False), _spec(inst, verb, "imported", False, swap=True)]))
+        if not single:
+            # the batch on the OBJECT side of the import-direction rule: 'O should import [S...]' vs '[S...] should be
+            # imported by O'
+            out.append((f"duality/{verb}/imported", "eq", [_spec(inst, verb, "imported", False), _spec(inst, verb, "import", False, swap=True)]))
     for d in ("import", "imported"):
         if single:
             out.append((f"negation/{d}", "neg", [_spec(inst, "should", d, False), _spec(inst, "should_not", d, False)]))
@@ -87,8 +143,12 @@ def alias_laws(inst):
     if len(inst["S"]) > 1 and inst["sk"] == "named":
         # batched alias: 'S should not import anything' == 'S should not import modules except S'
         S = tuple(inst["S"])
+        # the law is about verdicts; messages are compared as well when the batch members are unrelated (a batch
+        # holding a module AND its own descendant is de-duplicated by the alias but not by the explicit form, so the
+        # explicit form words its report differently - C03's reference does not cover subject / object overlap)
+        comb = "eq" if any(related(a, b) for a, b in itertools.combinations(S, 2)) else "same"
         for d in ("import", "imported"):
-            out.append((f"alias-batch/{d}", "same", [RuleSpec("should_not", d, False, "named", S, "named", (), True), RuleSpec("should_not", d, True, "named", S, "named", S)]))
+            out.append((f"alias-batch/{d}", comb, [RuleSpec("should_not", d, False, "named", S, "named", (), True), RuleSpec("should_not", d, True, "named", S, "named", S)]))
     if inst["S"] == inst["O"] and inst["sk"] == inst["ok"]:
         for d in ("import", "imported"):
             out.append((f"alias/{d}", "same", [_spec(inst, "should_not", d, False, anything=True), _spec(inst, "should_not", d, True)]))
@@ -96,10 +156,13 @@ def alias_laws(inst):
 
 
 def work(inst: dict) -> dict:
-    nodes = concrete(inst["tree"], inst["naming"])
+    nodes = inst["nodes"] if "nodes" in inst else concrete(inst["tree"], inst["naming"])
     label = f"{inst['tree']}/{inst['naming']}: {inst['sk']}{inst['S']} vs {inst['ok']}{inst['O']}"
     before = solver().stats()
-    lab = RuleLab(nodes, inst["cap"], with_message=True)
+    if "window" in inst:
+        lab = RuleLab(nodes, inst["cap"], with_message=True, window=[tuple(p) for p in inst["window"]], background=[tuple(p) for p in inst["background"]])
+    else:
+        lab = RuleLab(nodes, inst["cap"], with_message=True)
     arch = lab.arch
     res = {"label": label, "violations": [], "errors": [], "replays": 0, "samples": []}
     checked = 0
@@ -224,7 +287,8 @@ def run(tier: str, only: str | None = None) -> int:
     if only:
         items = [i for i in items if only in f"{i['tree']}/{i['naming']}: {i['sk']}{i['S']} vs {i['ok']}{i['O']}"]
     rep.bounds = {
-        "trees": sorted({i["tree"] for i in items}),
+        "trees": sorted({i["tree"].split("#")[0] for i in items}),
+        "seeded_larger_universes": f"{sum(1 for i in items if 'window' in i)} random forests of 8-12 modules, concrete background relation, 10-11 symbolic pairs each (VERIF_SEED)",
         "namings": sorted({i["naming"] for i in items}),
         "path_cap_per_summary": CAPS[tier],
         "laws": "duality (should/should_not), negation (plain/except, single S,O), decomposition (plain/except), alias (import_anything/be_imported_by_anything incl. messages), monotonicity per variable between unrelated modules (should / should_not, plain / except)",
